@@ -1,11 +1,12 @@
 """C21 BehaviorSubject call histories against the sequential reference model."""
-from simlib import subjects
+from simlib import subjects, subjects_th
 
 
 class Prop:
     id = "C21"
     level = "exploration"
-    engine = "VT"
+    engine = "VT+TH (sequential call histories in virtual time; a share of the runs has concurrent callers under controlled threads)"
+    th_share = 0.03
     quick_runs = 250000
     thorough_runs = 3000000
     kind = "behavior"
@@ -14,14 +15,20 @@ class Prop:
             "run against a real BehaviorSubject and against a sequential reference model; per-observer notification logs and the exceptions raised by "
             "each call must match (an observer unsubscribed re-entrantly after the call was made but before its turn may or may not get that "
             "one notification). Distinct = (configuration, call kinds, per-observer log lengths); non-trivial = at least two notifications "
-            "delivered.") % ("; every buffer_size in {0..4, None}, windows shorter/longer/equal to ages, virtual-time advances, scheduler drained after each call" if "behavior" == "replay" else "")
+            "delivered. 3%% of the runs use concurrent callers instead (TH engine): a producer thread emitting 1..m and 1-2 threads subscribing / "
+            "unsubscribing meanwhile, 1-3 forced pre-emptions in the subject's code; every subscriber must see a contiguous run of values that "
+            "starts at a value current (retained) at some moment of its subscribe() call, and the terminal notification if it stayed.") % ("; every buffer_size in {0..4, None}, windows shorter/longer/equal to ages, virtual-time advances, scheduler drained after each call" if "behavior" == "replay" else "")
     assumptions = ["re-entrant emission is excluded (call order is undefined for it)", "after dispose(), subscribing surfaces DisposedException: raised from subscribe() without an error handler, delivered to on_error with one"]
     stubs = []
 
     def generate(self, rng, tier):
+        if rng.random() < self.th_share:
+            return subjects_th.gen(rng, self.kind)
         return subjects.gen_history(rng, self.kind)
 
     def execute(self, sc):
+        if sc.get("mode") == "th":
+            return subjects_th.execute(sc)
         return subjects.execute(sc)
 
     def signature(self, sc, rule, msg):
